@@ -962,7 +962,9 @@ fn check_epochs(
     start_epoch: EpochNumberWithFraction,
     end_epoch: EpochNumberWithFraction,
 ) -> Result<(), String> {
-    if !start_epoch.is_well_formed() || !end_epoch.is_well_formed() {
+    // The epoch of the genesis block is 0(0/0).
+    let is_valid = |epoch: EpochNumberWithFraction| epoch.is_well_formed() || epoch.is_genesis();
+    if !is_valid(start_epoch) || !is_valid(end_epoch) {
         let errmsg = format!(
             "failed since the epochs ([{:#},{:#}]) are malformed",
             start_epoch, end_epoch
@@ -1088,7 +1090,9 @@ pub(crate) fn verify_total_difficulty(
             })?;
 
         // Step-2 Check the range of total difficulty.
-        let start_epoch_blocks_count = start_epoch.length() - start_epoch.index() - 1;
+        let start_epoch_blocks_count = start_epoch
+            .length()
+            .saturating_sub(start_epoch.index() + 1);
         let end_epoch_blocks_count = end_epoch.index() + 1;
         let unaligned_difficulty_calculated =
             checked_mul_u64(start_block_difficulty, start_epoch_blocks_count)?
